@@ -552,6 +552,10 @@ class Env:
             if "NOTSELF" in tags:
                 if a is not None and isinstance(a, ast.Name) and a.id == f.self_name:
                     return True
+                # the same belief for any node x that is looked up in its own parent's list (`_index_of(x._parent._children, x)`,
+                # also through locals bound to x._parent / x._parent._children): shape axiom c._parent is X <=> c in X._children
+                if a is not None and isinstance(a, ast.Name) and any(self._mentions_parent_of(f, o, a.id) for o in call.args if o is not a):
+                    return True
                 continue
             if any(isinstance(t, tuple) and t and t[0] == "NOTIN" for t in tags):
                 vals = [t[1] for t in tags if isinstance(t, tuple) and t[0] == "NOTIN"][0]
@@ -560,6 +564,17 @@ class Env:
                 continue
             if ta and ANY not in ta and not (ta & tags):
                 return True
+        return False
+
+    def _mentions_parent_of(self, f: Func, e: ast.AST, x: str, depth: int = 2) -> bool:
+        for n in ast.walk(e):
+            if isinstance(n, ast.Attribute) and n.attr in ("_parent", "parent") and isinstance(n.value, ast.Name) and n.value.id == x:
+                return True
+            if depth and isinstance(n, ast.Name) and n.id != x:
+                bs = self.scope(f).bindings.get(n.id, [])
+                vals = [b for b in bs if b.kind == "val" and b.expr is not None]
+                if vals and len(vals) == len(bs) and all(self._mentions_parent_of(f, b.expr, x, depth - 1) for b in vals):
+                    return True
         return False
 
     def _func_of_node(self, node) -> Optional[Func]:
